@@ -147,6 +147,9 @@ type Chain struct {
 	// (h+Phase) % Period == 0 and continued from its state file (Period 0: never).
 	RestartPlan []persistPlan
 	Restarts    int
+	PrivateMempool bool // some CheckTx calls go to one replica only
+	MempoolDirty   bool
+	PrivateChecks  int
 	HasHot      bool // most transactions come from HotSender (long histories: per-sender state grows)
 	HotSender     int
 	PoolKeys      int    // how many universe keys candidate configurations may contain (default nKeyperKeys)
@@ -200,8 +203,16 @@ func (c *Chain) compareStates(where string) {
 		return
 	}
 	s0 := canonApp(c.Reps[0])
+	if c.MempoolDirty {
+		s0.CheckTxState = nil
+	}
 	for i := 1; i < len(c.Reps); i++ {
 		si := canonApp(c.Reps[i])
+		if c.MempoolDirty {
+			// replicas were offered different transactions since the last Commit: what they remember
+			// about their mempool may differ until the next Commit
+			si.CheckTxState = nil
+		}
 		// fast path first; unexported fields of the application's structs (caches, counters - not persisted,
 		// not consensus state) may differ between processes, so a DeepEqual mismatch is re-examined without them
 		if !reflect.DeepEqual(s0, si) && !cmp.Equal(s0, si, appCmpOpts...) {
@@ -363,7 +374,7 @@ func (c *Chain) CheckTx(tx []byte, tag string) abcitypes.ResponseCheckTx {
 		b := mustMarshal(normCheck(resp))
 		if i == 0 {
 			first, resp0 = b, resp
-		} else if c.CheckReplicas && string(b) != string(first) {
+		} else if c.CheckReplicas && !c.MempoolDirty && string(b) != string(first) {
 			c.fail("replica-response-diverged", "CheckTx(%s) differs between replicas\nhistory: %s", tag, c.DescString())
 		}
 	}
@@ -470,6 +481,7 @@ func (c *Chain) EndBlock() abcitypes.ResponseEndBlock {
 			c.Restarts++
 		}
 	}
+	c.MempoolDirty = false
 	c.compareStates("EndBlock")
 	evs, intended := c.M.EndBlock(c.Height)
 	c.M.Commit()
@@ -953,7 +965,22 @@ func (c *Chain) genTx(t *rapid.T) ([]byte, string) {
 }
 
 // Step performs one generated action on the chain.
+// privateCheckTx offers a transaction to the mempool of one replica only (never replica 0, which the
+// reference model follows): what a node saw in its mempool is not part of the block sequence.
+func (c *Chain) privateCheckTx(t *rapid.T) {
+	i := rapid.IntRange(1, len(c.Reps)-1).Draw(t, "privateRep")
+	tx, tag := c.genTx(t)
+	c.Desc = append(c.Desc, fmt.Sprintf("P%d:%s", i, tag))
+	c.guard("CheckTx("+tag+")", func() { c.Reps[i].CheckTx(abcitypes.RequestCheckTx{Tx: tx}) })
+	c.MempoolDirty = true
+	c.PrivateChecks++
+}
+
 func (c *Chain) Step(t *rapid.T) {
+	if c.PrivateMempool && len(c.Reps) > 1 && rapid.IntRange(0, 4).Draw(t, "private") == 0 {
+		c.privateCheckTx(t)
+		return
+	}
 	sel := rapid.IntRange(0, 9).Draw(t, "step")
 	switch {
 	case sel <= 5:
